@@ -53,6 +53,7 @@ struct Shape {
 	int  parent  (int s) const { return st[s].parent; }
 	// nearest composite-style ancestor region (state id) and the prong of the path child in it
 	int  compoParent(int s, int* prong = nullptr) const;
+	int  serialBitsNeeded() const;                                          // size of the longest image the save format can produce for this structure
 	bool inSubtree(int s, int root) const { return s >= root && s < root + st[root].size; }
 };
 
@@ -183,6 +184,7 @@ struct INode {
 	virtual int substitutionLimit() const = 0;
 	virtual int taskCapacity() const = 0;
 	virtual int serialBytes() const = 0;
+	virtual int serialBits() const = 0;                                     // declared bit capacity of the serial buffer
 
 	// storage & lifetime: the engine owns the arena
 	virtual bool alive() const = 0;
